@@ -17,7 +17,11 @@ sim::Plan generate(const std::string&, uint64_t subseed, const sim::Tier& tier) 
   static const long primes[] = {3, 5, 7, 11, 13, 251};  // the operators build a table of inverses by trial multiplication: large primes only cost time
   p.seti("p", tier.thorough() ? primes[rng.below(6)] : (rng.chance(2, 3) ? 5 : primes[rng.below(6)]));
   p.seti("nr", rng.range(2, 7));
+  const bool compressed = p.get("family").find("compressed") != std::string::npos;
+  // compressed variant: tiny row space and many columns, so that classes of identical columns form, grow, merge and split all the time
+  if (compressed && rng.chance(3, 4)) { p.seti("nr", rng.range(1, 3)); p.seti("p", rng.chance(1, 2) ? 3 : p.geti("p")); }
   int nops = (int)rng.range(4, tier.thorough() ? 70 : 45);
+  if (compressed) nops += (int)rng.range(10, 40);
   // swarm: op mix, audit frequency (reads trigger the lazy paths: some runs read after every op, others almost never)
   int audit_every = rng.chance(1, 4) ? 1 : (int)rng.range(2, 12);
   int w_ins = (int)rng.range(2, 6), w_add = (int)rng.range(2, 8), w_zero = rng.chance(3, 4) ? (int)rng.range(1, 4) : 0, w_swap = rng.chance(3, 4) ? (int)rng.range(1, 4) : 0, w_rm = rng.chance(2, 3) ? (int)rng.range(1, 3) : 0;
@@ -26,7 +30,7 @@ sim::Plan generate(const std::string&, uint64_t subseed, const sim::Tier& tier) 
   for (int i = 0; i < 3; ++i) p.add(0, "ins", {(long)rng.below(1 << 30)});
   for (int i = 0; i < nops; ++i) {
     long k = rng.below(w_ins + w_add + w_zero + w_swap + w_rm);
-    if (k < w_ins) { if (rng.chance(1, 5)) p.add(0, "ins_at", {(long)rng.below(1 << 30), (long)rng.below(64)}); else p.add(0, "ins", {(long)rng.below(1 << 30)}); }
+    if (k < w_ins) { if (rng.chance(1, 4)) p.add(0, "ins_dup", {(long)rng.below(64)}); else if (rng.chance(1, 5)) p.add(0, "ins_at", {(long)rng.below(1 << 30), (long)rng.below(64)}); else p.add(0, "ins", {(long)rng.below(1 << 30)}); }
     else if (k < w_ins + w_add) { long z = rng.below(3); p.add(1, z == 0 ? "add" : z == 1 ? "mta" : "msa", {(long)rng.below(64), (long)rng.below(64), coefficient(), (long)rng.below(1 << 30)}); }
     else if (k < w_ins + w_add + w_zero) { if (rng.chance(3, 4)) p.add(1, "zero_entry", {(long)rng.below(64), (long)rng.below(64), (long)rng.below(2)}); else p.add(1, "zero_col", {(long)rng.below(64)}); }
     else if (k < w_ins + w_add + w_zero + w_swap) { if (rng.chance(1, 2)) p.add(2, "swap_rows", {(long)rng.below(64), (long)rng.below(64)}); else p.add(2, "swap_cols", {(long)rng.below(64), (long)rng.below(64)}); }
